@@ -300,7 +300,9 @@ fn engine_round<B: Backend>(b: &B, prog: Arc<Program>, roots: &[NodeId], inputs:
             or.judge(&recs, false, false);
         }
         for (p, kind, d) in &or.violations {
-            if p != "C01" || out.is_empty() {
+            // C02 judges values, single flight and at-most-once; other C03
+            // verdicts (incl. the known finding C03-F1) belong to C03
+            if (p == "C01" && out.is_empty()) || p == "C02" || kind == "executed-twice-in-one-epoch" {
                 out.push((format!("{p}:{kind}"), d.clone()));
             }
         }
